@@ -827,6 +827,13 @@ class Object(base.Symbolic, metaclass=ObjectMeta):
   def sym_lt(self, other: Any) -> bool:
     """Tests symbolic less-than."""
     if type(self) is not type(other):
+      if (isinstance(other, Object)
+          and type(self).__qualname__ == type(other).__qualname__):
+        # Different classes that share a qualified name (e.g. classes created
+        # by a factory function) tie on their type order, in which case
+        # `base.lt` would call `sym_lt` again.
+        return (type(self).__module__, id(type(self))) < (
+            type(other).__module__, id(type(other)))
       return base.lt(self, other)
     return base.lt(self._sym_attributes, other._sym_attributes)  # pylint: disable=protected-access
 
